@@ -128,6 +128,9 @@ func cmdElectRun(args []string) int {
 						ev["rec"] = string(bs)
 					}
 					rec.Log(ev)
+				case "LDescribe":
+					_ = lk.Describe()
+					_ = lk.Identity()
 				case "LCreate", "LUpdate", "LRelease":
 					holder := s.C
 					if s.E == "LRelease" {
